@@ -28,15 +28,15 @@ CHECKS = {
    'Timeouts are inconclusive unless reproduced alone with a 10x budget; exponential blow-up is not hunted.',
    'runtime monitoring: process-outcome contract monitor (arithmetic-sanitizer build included)'),
  'C08': ('exploration',
-   'Clean-by-construction grammars with at most one planted mistake of the nine classes at random depth/placement; the binary\'s exit status, first error line and the library Error variant must match the planted class; clean grammars must be accepted for all four shells.',
+   'Clean-by-construction grammars with at most one planted mistake of the nine classes at random depth/placement; the binary\'s exit status, first error line and the library Error variant must match the planted class; clean grammars (also with juxtaposition nested inside groups of a word) must be accepted for all four shells. KF-I (literals juxtaposed inside a group of a word are rejected) is a recorded finding.',
    'Classes 7-9 planted only where call variants reach them.',
    'runtime monitoring: planted-fault oracle on exit status and diagnostics'),
  'C10': ('exploration',
-   'Each (grammar, shell) compiled K times in fresh processes with differing environment / cwd / ASLR / input channel plus R times in-process; script, --dfa and --regex bytes must all be identical.',
+   'Each (grammar, shell) - large random grammars, families with many permuted within-word pairs and with several external commands per state - compiled K times in fresh processes with differing environment / cwd / ASLR / input channel plus R times in-process; script, --dfa and --regex bytes must all be identical.',
    'In this sandbox hashbrown/ahash/ustr hash with fixed keys, so only std RandomState, address, time or environment leaks can show; stated in evidence.',
    'runtime monitoring: metamorphic monitor (identical bytes across processes and repeats)'),
  'C13': ('exploration',
-   'Every located diagnostic of the binary on planted grammars with random multi-line layout must name the exact start of a token of the kind the message is about (the planted token for planted warnings / parse errors) and echo that source line.',
+   'Every located diagnostic of the binary on planted grammars with random multi-line layout must name the exact start of a token of the kind the message is about (the planted token for planted warnings / parse errors; for the reference trace of a spaces-in-a-word error, a reference through which the literals are actually reached) and echo that source line.',
    'ASCII only, so byte and character columns coincide.',
    'runtime monitoring: planted-location oracle over stderr of the binary'),
  'C14': ('exploration',
@@ -56,7 +56,7 @@ CHECKS = {
    'fish/zsh/pwsh by decoding only; curly quotes not generated; command names plain.',
    'runtime monitoring: decode-and-compare oracle on string constants + execution in bash with a canary'),
  'C09': ('exploration',
-   '(a) every state of every compiled automaton is searched for two outgoing items with different targets that accept a common word; (b) the || grammar and its | variant are run in bash on the same command lines and must agree on return code, emptiness, subset and the minimal-branch clause. KF-B, KF-E, KF-G are recorded findings.',
+   '(a) every state of every compiled automaton is searched for two outgoing items with different targets that accept a common word; (b) the || grammar and its | variant are run in bash on the same command lines and must agree on return code, emptiness, subset and the minimal-branch clause; (c) for every grammar of the profile the compiled automaton of the || grammar with all || indices erased must accept the same language as the compiled automaton of its | spelling. KF-B, KF-E, KF-G are recorded findings.',
    '(a) under-approximates on paths through commands/placeholders inside words; branch indices for (b) from cgv/refsem.py.',
    'runtime monitoring: invariant on dumped automata + metamorphic monitor (|| vs |) on bash executions'),
  'C11': ('exploration',
@@ -64,7 +64,7 @@ CHECKS = {
    'Built-in case for fish/zsh/pwsh judged as "one body that is none of the markers".',
    'runtime monitoring: exhaustive rule oracle over probe dumps, emitted scripts and bash executions'),
  'C12': ('exploration',
-   'Value sets with prefix chains in within-word alternations are compiled and run in bash: every value as a complete word must be recognised, non-values not, every proper prefix must offer exactly the values extending it. KF-D (shorter value not recognised) is a recorded finding.',
+   'Value sets with prefix chains in within-word alternations (one word, through a definition, with a suffix, two words in sequence, two alternative words of the same table shape) are compiled and run in bash: every value as a complete word must be recognised, non-values not, every proper prefix must offer exactly the values extending it. KF-D (shorter value not recognised) is a recorded finding.',
    'COMP_WORDBREAKS empty; the case the statement leaves open is recorded, not judged.',
    'runtime monitoring: value-set oracle on bash executions'),
  'C16': ('exploration',
